@@ -36,6 +36,8 @@ ASSUMPTIONS = ["scipy.linalg.expm is modelled by NormedSpace.exp (its output is 
                "float rounding inside NumPy matrix products is not modelled (comparison tolerance 1e-9*(1+|value|)); dyadic inputs are compared exactly where stated",
                "the model builds the cluster operator from the Jordan-Wigner ladder matrices (FieldOperator.as_matrix form); the code goes through "
                "jordan_wigner_encode_field_operator(...).as_matrix() - equality of the two is property C11 and is re-checked exactly on every sample here",
+               "the encoder drops Pauli strings with |weight| <= 1e-14 and adds weights in floating point: generators are compared exactly for small dyadic "
+               "parameters and within 1e-12*(1+|G|) for float / tiny parameters",
                "scipy.optimize.minimize is outside the model: it is only assumed to report as `fun` one of the energies it evaluated (checked on every sampled run)",
                "state vectors are 1-D sequences; (d,1) column arrays and other array shapes accepted by NumPy broadcasting are not modelled"]
 RULE = ("seeded structured generation: complex states (dyadic, normalised floats, basis states, eigenvectors, phase-rotated copies) x Hermitian and "
